@@ -112,7 +112,8 @@ func Run(c *vlib.Ctx, scns []*Scn, o Opts) {
 		c.Add(int64(len(r.Decisions)), int64(r.Steps), 1)
 		return
 	}
-	if !c.IsShard() {
+	if !c.IsShard() || (c.Shards == 1 && c.ClaimDir == "" && os.Getenv("VERIF_SINGLE") == "") {
+		// top level, or running as a part of another harness (-shard 0/1 -out file): fan out to worker processes
 		c.SpawnShards(o.Shards)
 		return
 	}
